@@ -223,7 +223,8 @@ class TrainingModel(L.LightningModule):
         )
 
         scheduler = None
-        for k, v in self.trainer_config.lr_scheduler.items():
+        lr_scheduler_cfg = self.trainer_config.lr_scheduler  # `None` (schema default): no scheduler
+        for k, v in lr_scheduler_cfg.items() if lr_scheduler_cfg is not None else []:
             if v is not None:
                 if k == "step_lr":
                     scheduler = torch.optim.lr_scheduler.StepLR(
